@@ -25,6 +25,19 @@ import scipp as sc
 
 import scippneutron as scn
 
+
+def _fresh_state():
+    """Reset module-level state of the kernel modules to what it was right after import (mc/modstate.py; same
+    effect as importlib.reload but cheap): the conversion under test and each dense reference conversion start
+    from the same clean state and cannot poison each other through memo tables or "last call" slots."""
+    from mc import modstate
+    from scippneutron import _utils as _ut
+    from scippneutron.conversion import beamline as _kb
+    from scippneutron.conversion import tof as _kt
+
+    for m in (_kt, _kb, _ut):
+        modstate.reset(m)
+
 ID = 'C06'
 LEVEL = 'model_checking'
 RULE = (
@@ -41,7 +54,7 @@ ASSUMPTIONS = [
     'event weights float64 with variances; event-level extra coord int64, event-level mask, outer masks on every dim',
 ]
 REQUIRED_CLASSES = [
-    'events_bitwise', 'all_bins_empty', 'some_bin_empty', 'nan_events', 'finite_events', 'edges_bitwise',
+    'early_events_between_pixel_t0s', 'int32_event_coord', 'events_bitwise', 'all_bins_empty', 'some_bin_empty', 'nan_events', 'finite_events', 'edges_bitwise',
     'edges_other_unit', 'buffer_gappy', 'buffer_contiguous', 'dtype_float32_result', 'dtype_float64_result',
     'int_event_coord', 'geometry_positions', 'geometry_precomputed', 'container_dataset', 'container_dataarray',
     'input_unchanged', 'data_preserved', 'masks_preserved', 'grid_2d', 'grid_1d', 'per_pixel_final_energy',
@@ -94,11 +107,16 @@ def cases(tier):
 # construction of the binned input
 
 
-def _event_tofs(n):
-    """Distinct, positive, deterministic event times in microseconds (some before t0 of the inelastic legs)."""
+def _event_tofs(n, pattern='default', early_value=None):
+    """Distinct, positive, deterministic event times in microseconds (some before t0 of the inelastic legs).
+
+    'default': the early events (150..) lie before the flight time t0 of *every* pixel.  'between': the early events
+    (800..) lie after the smallest per-pixel t0 but before the t0 of the other pixels, and no event lies before the
+    smallest t0 (the case where a global "is anything unphysical?" shortcut and the per-event rule disagree)."""
     out = []
+    early, step = (150.0, 10.0) if pattern == 'default' else (early_value, 1e-3)
     for k in range(n):
-        out.append(150.0 + 10 * k if k % 5 == 3 else 2000.0 + 1500.25 * k)
+        out.append(early + step * k if k % 5 == 3 else 2000.0 + 1500.25 * k)
     return out
 
 
@@ -106,7 +124,7 @@ def _pixel_dims(dims):
     return [d for d in dims if d != 'tof']
 
 
-def build_input(case, ev_dtype):
+def build_input(case, ev_dtype, pattern='default', early_value=None):
     """Return (data array, per-bin list of global event ids in row-major bin order)."""
     dims, shape, counts = case['dims'], case['shape'], case['counts']
     nb = len(counts)
@@ -115,7 +133,7 @@ def build_input(case, ev_dtype):
     for c in counts:
         ids_per_bin.append(list(range(k, k + c)))
         k += c
-    tofs = _event_tofs(total)
+    tofs = _event_tofs(total, pattern, early_value)
     # buffer layout: list of event ids (or None = unreferenced junk event) in storage order
     if case['buffer'] == 'contiguous':
         order = [e for b in ids_per_bin for e in b]
@@ -134,8 +152,8 @@ def build_input(case, ev_dtype):
     nbuf = len(order)
     ev_id = np.array([(-1 if e is None else e) for e in order], dtype=np.int64)
     tof_vals = np.array([(77.0 if e is None else tofs[e]) for e in order], dtype=np.float64)
-    if ev_dtype == 'int64':
-        tof_var = sc.array(dims=['event'], values=np.floor(tof_vals).astype(np.int64), unit='us', dtype='int64')
+    if ev_dtype in ('int64', 'int32'):
+        tof_var = sc.array(dims=['event'], values=np.floor(tof_vals).astype(ev_dtype), unit='us', dtype=ev_dtype)
     else:
         tof_var = sc.array(dims=['event'], values=tof_vals.astype(ev_dtype), unit='us', dtype=ev_dtype)
     buf = sc.DataArray(
@@ -259,15 +277,36 @@ def run_case(case, rec):
             if ev_dtype == 'float32' and target.startswith('energy_transfer'):
                 # single precision result only when the fixed energy is single precision as well
                 _one(case, target, ev_dtype, rec, e_dtype='float32')
+            if target.startswith('energy_transfer') and ev_dtype == 'float64':
+                _one(case, target, ev_dtype, rec, pattern='between')
+        if target in ('wavelength', 'dspacing', 'Q'):
+            # int32 event coordinates (raw detector ticks), where scipp supports the arithmetic
+            _one(case, target, 'int32', rec)
 
 
-def _one(case, target, ev_dtype, rec, e_dtype='float64'):
+def _one(case, target, ev_dtype, rec, e_dtype='float64', pattern='default'):
     dims, shape, counts = case['dims'], case['shape'], case['counts']
     pdims = _pixel_dims(dims)
     pshape = [s for d, s in zip(dims, shape, strict=True) if d != 'tof']
     tgt = real_target(target)
-    sub = {'target': target, 'event_dtype': ev_dtype, 'energy_dtype': e_dtype}
+    sub = {'target': target, 'event_dtype': ev_dtype, 'energy_dtype': e_dtype, 'tof_pattern': pattern}
     da, ids_per_bin = build_input(case, ev_dtype)
+    if pattern == 'between':
+        # place the early events between the smallest and the second smallest per-pixel flight time t0 of the fixed leg
+        probe = da.copy(deep=False)
+        add_energy(probe, target, pdims, pshape, e_dtype)
+        if 'final_energy' not in probe.coords or not pdims:
+            return  # t0 is one number for the whole detector: nothing lies "between"
+        geo = probe.transform_coords(['L2'], graph={**scn.conversion.graph.beamline.beamline(scatter=True)}) if 'L2' not in probe.coords else probe
+        l2 = np.atleast_1d(geo.coords['L2'].to(unit='m').values).ravel()
+        ef = np.atleast_1d(probe.coords['final_energy'].to(unit='meV', dtype='float64').values).ravel()
+        t0 = np.sort(np.unique(np.round(l2 * 2286.27 / np.sqrt(ef), 3)))  # us; 2286.27 us/m at 1 meV (placement only)
+        if len(t0) < 2:
+            return
+        da, ids_per_bin = build_input(case, ev_dtype, pattern, float(0.5 * (t0[0] + t0[1])))
+        rec.cls('early_events_between_pixel_t0s')
+    if ev_dtype == 'int32':
+        rec.cls('int32_event_coord')
     add_energy(da, target, pdims, pshape, e_dtype)
     rec.states += 1
 
@@ -282,6 +321,7 @@ def _one(case, target, ev_dtype, rec, e_dtype='float64'):
     }
 
     obj = da if case['container'] == 'dataarray' else sc.Dataset({'events': da})
+    _fresh_state()
     res = scn.convert(obj, origin='tof', target=tgt, scatter=True)
     rec.transitions += 1
     rec.cls('container_' + case['container'])
@@ -314,6 +354,7 @@ def _one(case, target, ev_dtype, rec, e_dtype='float64'):
         if name in ('tof', 'temperature') or name.startswith('label_'):
             continue
         dense.coords[name] = gather(da.coords[name], pdims, pix_index)
+    _fresh_state()
     dense_out = scn.convert(dense, origin='tof', target=tgt, scatter=True).coords[tgt]
     rec.transitions += 1
     want = dense_out.values
@@ -418,6 +459,7 @@ def _one(case, target, ev_dtype, rec, e_dtype='float64'):
             if name == 'temperature' or name.startswith('label_'):
                 continue
             dense2.coords[name] = da.coords[name]
+        _fresh_state()
         want_edges = scn.convert(dense2, origin='tof', target=tgt, scatter=True).coords[tgt]
         rec.transitions += 1
         if tgt not in res.coords:
